@@ -184,6 +184,19 @@ func (c *Ctx) socketUses() []socketUse {
 					use("method:" + callee.Name())
 					break
 				}
+				if callee != nil && an.InModule(callee) && len(callee.Blocks) > 0 && !socketArgOK[an.FuncKey(callee)] {
+					// an ordinary function of the module: follow the socket into the matching parameter(s)
+					followed := false
+					for i, a := range cc.Args {
+						if a == it.v && i < len(callee.Params) {
+							push(callee.Params[i], it.src)
+							followed = true
+						}
+					}
+					if followed {
+						break
+					}
+				}
 				if callee != nil {
 					use("arg:" + an.FuncKey(callee))
 				} else {
